@@ -4,6 +4,8 @@ META = {
     "outside": ["whole-run convergence of e2fsck -fy followed by -fn (the property proper): only self-contained kernels are decided; for the pass 3 / 4 / 5 kernels the "
                 "second run is decided on the state the first run provably leaves, ASSUMING passes 1-2 of the second run rebuild the same tables from the disk",
                 "pass 3: directories on a cycle of parents (never reported on this tree: C02 finding), real e2fsck_reconnect_file / fix_dotdot (cut), reconnect failures",
+                "expand_directory: indirect-mapped directories and index blocks (metadata callbacks), directories without block 0 (pass 2 repairs those; expand_dir_proc would "
+                "zero-fill logical block 0 instead of building a directory block), allocator failure, huge_file",
                 "pass 4: EA-inode reference consolidation, > 128-byte inodes, failing reconnects; pass 5: bigalloc, BLOCK_UNINIT reconstruction by the loader (assumed to "
                 "mark no block that pass 1 does not mark)"],
 }
@@ -194,6 +196,9 @@ MANIFEST = {
             "changes nothing (SECOND queries); (9) pass 4 (e2fsck_pass4 + disconnect_inode, yes): every checked inode ends cleared, or referenced with i_links_count == references; "
             "a second run on the recomputed counters raises nothing and writes nothing; (10) pass 3 (check_directory over the table, yes): every parentless directory is reconnected "
             "(parent = '..' = lost+found), every wrong '..' rewritten, afterwards no chain dangles, and a second run is silent. "
+            "(11) e2fsck_expand_directory + expand_dir_proc (lost+found full / pass 3A), cluster ratio 1 and 4: exactly the requested blocks are appended as fresh empty directory "
+            "blocks at bigalloc-aligned positions, i_size = mapped blocks * block size, i_blocks = clusters occupied by the final mapping (what pass 1 of the next run recomputes; a "
+            "block inside an already owned cluster adds nothing), quota charged the same bytes, each new cluster allocated, accounted and marked exactly once (expanddir). "
             "Whole-run convergence of e2fsck -fy / -fn is outside.",
     "note": "Trusted: CBMC's C semantics; fix_problem stubbed to 'yes' in the kernels; the caller's dirent validity test restated from the format; "
             "find_problem cut to a slot-copying stub in fixproblem; the real find_problem is decided over the whole real table in harness find_problem "
